@@ -11,6 +11,7 @@ from ..flow import Slicer, block_of, flat_guards, parent_map
 from ..labels import LabelFlow
 from ..model import FuncInfo, Model, dotted, norm, walk_no_nested
 from ..report import Run
+from .common import short
 
 UC = 'exabgp.bgp.message.update.collection.UpdateCollection'
 MPC = 'exabgp.bgp.message.update.nlri.collection.MPNLRICollection'
@@ -168,6 +169,16 @@ def check(model: Model, run: Run) -> None:
     if n6 == 0:
         run.cannot('messages(): the branch moving announced NLRIs into the NLRI-field list was not found')
 
+    # ------------------------------------------------------------------ R8 announced routes go out with their attributes
+    run.rule(
+        'C09.R8',
+        'the path attributes are packed (with the RFC defaults) whenever the collection announces something: the flag handed '
+        'to AttributeCollection.pack_attribute can be false only when both the IPv4 and the MP announce lists are empty '
+        '(RFC 4760: an UPDATE with MP_UNREACH_NLRI alone needs no other attribute)',
+        floor=2,
+    )
+    _r8_defaults(model, run, folder, msgs)
+
     # ------------------------------------------------------------------ R7 nothing is sent twice
     run.rule('C09.R7', 'a buffer that went out in one message is emptied (or restarted with the pending prefix) before the next message that includes it: no route is sent twice and no stale bytes eat the room of the next message', floor=4)
     cfg7 = CFG(msgs.node)
@@ -198,91 +209,58 @@ def check(model: Model, run: Run) -> None:
     ah = model.func(MPC + '._attribute_header')
     run.analysed(al)
     run.analysed(ah)
-    def is_length(fi: FuncInfo, name: str) -> bool:
-        """the value being measured: the last parameter, or a local holding len(<last parameter>)"""
-        p = fi.node.args.args[-1].arg
-        if name == p:
-            return True
-        v = Loc(model, fi).single(name)
-        return v is not None and norm(v) == 'len(%s)' % p
+    # the four functions are evaluated on the syntax tree for the boundary lengths (sa/evalfn.py): what they compute
+    # matters, not how it is spelt
+    from ..const import ClassRef
+    from ..evalfn import eval_function
 
-    def switch(fi: FuncInfo, e: ast.AST) -> tuple | None:
-        """`n + (4 if n > K else 3)` and its spellings -> (K, short, long) with n the function's length parameter"""
-        for pat, flip in (('V_n + (E_a if V_n > E_k else E_b)', False), ('V_n + (E_a if V_n <= E_k else E_b)', True), ('V_n + E_a if V_n > E_k else V_n + E_b', False), ('V_n + E_a if V_n <= E_k else V_n + E_b', True)):
-            b = amatch(pat, e)
-            if b is not None and is_length(fi, str(b['V_n'])):
-                k = folder.fold(ast.parse(str(b['E_k']), mode='eval').body, fi.module, fi.cls)
-                a = folder.fold(ast.parse(str(b['E_a']), mode='eval').body, fi.module, fi.cls)
-                c = folder.fold(ast.parse(str(b['E_b']), mode='eval').body, fi.module, fi.cls)
-                return (k, a, c) if flip else (k, c, a)
-        return None
+    def lastp(fi: FuncInfo) -> str:
+        return fi.node.args.args[-1].arg
 
-    def ret_switch(fi: FuncInfo) -> tuple | None:
-        rets = [r for r in walk_no_nested(fi.node) if isinstance(r, ast.Return) and r.value is not None]
-        if len(rets) == 1:
-            return switch(fi, rets[0].value)
-        # if n <= K: return n + 3 ; return n + 4
-        for st in fi.node.body:
-            if isinstance(st, ast.If) and len(st.body) == 1 and isinstance(st.body[0], ast.Return) and len(rets) == 2:
-                other = [r for r in rets if r is not st.body[0]][0]
-                for pat, flip in (('V_n <= E_k', True), ('V_n > E_k', False)):
-                    b = amatch(pat, st.test)
-                    if b is None or not is_length(fi, str(b['V_n'])):
-                        continue
-                    k = folder.fold(ast.parse(str(b['E_k']), mode='eval').body, fi.module, fi.cls)
-                    inc = []
-                    for r in (st.body[0], other):
-                        bb = amatch('V_n + E_c', r.value, {'V_n': b['V_n']})
-                        inc.append(folder.fold(ast.parse(str(bb['E_c']), mode='eval').body, fi.module, fi.cls) if bb else None)
-                    return (k, inc[0], inc[1]) if flip else (k, inc[1], inc[0])
-        return None
+    got = {n: eval_function(folder, al, {lastp(al): n}) for n in (0, 1, 255, 256, 4000)}
+    want = {0: 3, 1: 4, 255: 258, 256: 260, 4000: 4004}
+    run.check(got == want, al.qualname, 'predicted size = payload + 3 up to 255, + 4 above (%s)' % (got,), al.loc(), 'attribute = flag, code, 1 or 2 length octets, payload')
 
-    sw = ret_switch(al)
-    run.check(sw == (255, 3, 4), al.qualname, 'predicted size = payload + 3 up to 255, + 4 above (%s)' % (sw,), al.loc(), 'attribute = flag, code, 1 or 2 length octets, payload')
+    def header_ok(fi: FuncInfo) -> tuple[bool, dict]:
+        ps = [a.arg for a in fi.node.args.args if a.arg not in ('self', 'cls')]
+        seen = {}
+        ok = len(ps) == 2
+        for n in (0, 255, 256, 4000):
+            v = eval_function(folder, fi, {ps[0]: 14, ps[1]: n}) if ok else UNKNOWN
+            seen[n] = v.hex() if isinstance(v, bytes) else repr(v)
+            if not isinstance(v, bytes):
+                ok = False
+            elif n <= 255:
+                ok = ok and len(v) == 3 and v[1] == 14 and v[2] == n and not v[0] & 0x10
+            else:
+                ok = ok and len(v) == 4 and v[1] == 14 and v[2:] == n.to_bytes(2, 'big') and bool(v[0] & 0x10)
+        return ok, seen
 
-    def writer_switch(fi: FuncInfo) -> tuple | None:
-        """the writer: (threshold K, two-octet length used above K, one-octet length used up to K)"""
-        p = fi.node.args.args[-1].arg if fi.name == '_attribute_header' else None
-        for n in walk_no_nested(fi.node):
-            tests = []
-            if isinstance(n, ast.If):
-                tests = [(n.test, n.body, n.orelse)]
-            elif isinstance(n, ast.IfExp):
-                tests = [(n.test, [n.body], [n.orelse])]
-            for t, yes, no in tests:
-                for pat, flip in (('V_n > E_k', False), ('V_n <= E_k', True)):
-                    b = amatch(pat, t, ({'V_n': p} if p else None))
-                    if b is None:
-                        continue
-                    k = folder.fold(ast.parse(str(b['E_k']), mode='eval').body, fi.module, fi.cls)
-                    big, small = (no, yes) if flip else (yes, no)
-                    two = any("pack('!H', %s)" % b['V_n'] in norm(x) for x in big)
-                    rest = small if small else [r for r in walk_no_nested(fi.node) if isinstance(r, ast.Return) and all(r is not x and not any(r is y for y in ast.walk(x)) for x in big)]
-                    one = any(('bytes([%s])' % b['V_n']) in norm(x) or (', %s])' % b['V_n']) in norm(x) for x in rest)
-                    return (k, two, one)
-        return None
-
-    ws = writer_switch(ah)
-    run.check(ws == (255, True, True), ah.qualname, 'extended header iff length > 255 (%s)' % (ws,), ah.loc(), 'the writer must switch at the same point as _attr_len')
+    okh, seenh = header_ok(ah)
+    run.check(okh, ah.qualname, 'extended header iff length > 255 (%s)' % (seenh,), ah.loc(), 'the writer must switch at the same point as _attr_len')
     at = model.func(ATTR + '._attribute')
     ln = model.func(ATTR + '._len')
     run.analysed(at)
     run.analysed(ln)
-    wa = writer_switch(at)
-    ext_flag = any(isinstance(x, ast.Attribute) and x.attr == 'EXTENDED_LENGTH' for x in ast.walk(at.node))
-    if wa is not None and wa[1:] == (False, False):
-        # two steps: `if n > K: flag |= EXTENDED_LENGTH` then `if flag & EXTENDED_LENGTH: two octets else one octet`
-        sets = [n for n in walk_no_nested(at.node) if isinstance(n, ast.If) and any(isinstance(x, ast.AugAssign) and isinstance(x.op, ast.BitOr) and 'EXTENDED_LENGTH' in norm(x.value) for x in n.body) and amatch('V_n > E_k', n.test) is not None]
-        uses = [n for n in walk_no_nested(at.node) if isinstance(n, (ast.If, ast.IfExp)) and isinstance(n.test, ast.BinOp) and isinstance(n.test.op, ast.BitAnd) and 'EXTENDED_LENGTH' in norm(n.test)]
-        if len(sets) == 1 and len(uses) == 1:
-            nm = str(amatch('V_n > E_k', sets[0].test)['V_n'])  # type: ignore[index]
-            u = uses[0]
-            yes = u.body if isinstance(u, ast.If) else [u.body]
-            no = u.orelse if isinstance(u, ast.If) else [u.orelse]
-            wa = (wa[0], any("pack('!H', %s)" % nm in norm(x) for x in yes), any('bytes([%s])' % nm in norm(x) for x in no))
-    run.check(wa == (255, True, True) and ext_flag, at.qualname, 'extended length iff length > 255 (%s)' % (wa,), at.loc(), 'RFC 4271 4.3: one length octet up to 255, two with the Extended Length bit')
-    sl_ = ret_switch(ln)
-    run.check(sl_ == (255, 3, 4), ln.qualname, 'predicted size = length + 3 up to 255, + 4 above (%s)' % (sl_,), ln.loc(), 'Attribute._len must predict what _attribute writes')
+    # a concrete attribute class whose FLAG and ID fold (the method reads them through its first parameter)
+    concrete = next((q for q, c in sorted(model.classes.items()) if model.is_subclass(q, ATTR) and q != ATTR and isinstance(folder.class_attr(q, 'ID'), int) and isinstance(folder.class_attr(q, 'FLAG'), int) and not folder.class_attr(q, 'FLAG') & 0x10), None)
+    oka = concrete is not None
+    seena = {}
+    if concrete is not None:
+        first = at.node.args.args[0].arg
+        aid = folder.class_attr(concrete, 'ID')
+        for n in (1, 255, 256, 4000):
+            v = eval_function(folder, at, {first: ClassRef(concrete), lastp(at): bytes(n)})
+            seena[n] = v[:4].hex() if isinstance(v, bytes) else repr(v)
+            if not isinstance(v, bytes):
+                oka = False
+            elif n <= 255:
+                oka = oka and len(v) == n + 3 and v[1] == aid and v[2] == n and not v[0] & 0x10
+            else:
+                oka = oka and len(v) == n + 4 and v[1] == aid and v[2:4] == n.to_bytes(2, 'big') and bool(v[0] & 0x10)
+    run.check(oka, at.qualname, 'extended length iff length > 255 (%s: %s)' % (short(concrete) if concrete else None, seena), at.loc(), 'RFC 4271 4.3: one length octet up to 255, two with the Extended Length bit')
+    gotl = {n: eval_function(folder, ln, {lastp(ln): bytes(n)}) for n in (0, 255, 256, 4000)}
+    run.check(gotl == {0: 3, 255: 258, 256: 260, 4000: 4004}, ln.qualname, 'predicted size = length + 3 up to 255, + 4 above (%s)' % (gotl,), ln.loc(), 'Attribute._len must predict what _attribute writes')
     pf = model.func(UC + '.prefix')
     run.check("pack('!H', len(data)) + data" in norm(pf.node), pf.qualname, '2-byte length prefix', pf.loc(), 'withdrawn and attribute sections carry a 2-octet length')
 
@@ -309,10 +287,11 @@ def check(model: Model, run: Run) -> None:
     tests = [n for n in msgs.node.body if isinstance(n, ast.If) and n.lineno > budget.lineno and room in ml.reads(n.test) and after_budget and n.lineno < after_budget[0].lineno and isinstance(n.body[-1], ast.Return)]
     covered = set()
     for t in tests:
-        for c in (t.test.values if isinstance(t.test, ast.BoolOp) and isinstance(t.test.op, ast.And) else [t.test]):
-            for pat, what in (('V_r < 0', {'neg'}), ('V_r <= 0', {'neg', 'zero'}), ('V_r == 0', {'zero'}), ('V_r < 1', {'neg', 'zero'})):
-                if amatch(pat, c, {'V_r': room}) is not None:
-                    covered |= what
+        # the test is evaluated for room = -1 and room = 0 with something to send (every other name true)
+        others = {x.id: True for x in ast.walk(t.test) if isinstance(x, ast.Name) and x.id != room}
+        for val, what in ((-1, 'neg'), (0, 'zero')):
+            if folder.fold(t.test, msgs.module, msgs.cls, dict(others, **{room: val})) is True:
+                covered.add(what)
     run.check('neg' in covered, msgs.qualname, 'negative room returns before any message', msgs.loc(tests[0]) if tests else msgs.loc(), 'attributes larger than the message leave nothing to send')
     run.check('zero' in covered, msgs.qualname, 'zero room returns before any message', msgs.loc(tests[0]) if tests else msgs.loc(), 'no prefix can fit')
     # first prefix does not fit: inside each packing loop, an emptiness test on every buffer returns before the split yield
@@ -428,3 +407,116 @@ def growth_rule(model: Model, run: Run) -> None:
         run.cannot('budget assignment (room = negotiated.msg_size - ...) not found in messages()')
         return
     _r3_growth(model, run, msgs, room, Roles(model, msgs))
+
+
+# ---------------------------------------------------------------------------------------------- R8
+def _r8_defaults(model: Model, run: Run, folder: Folder, msgs: FuncInfo) -> None:
+    import itertools
+
+    from ..flow import conjuncts
+
+    ml = Loc(model, msgs)
+    pm = parent_map(msgs.node)
+    # the announce lists: what the loop over self._announces appends to
+    conts: set[str] = set()
+    for n in walk_no_nested(msgs.node):
+        if isinstance(n, (ast.For, ast.AsyncFor)) and '_announces' in norm(n.iter):
+            for c in ast.walk(n):
+                if isinstance(c, ast.Call) and isinstance(c.func, ast.Attribute) and c.func.attr == 'append':
+                    r = c.func.value
+                    while isinstance(r, ast.Call) and isinstance(r.func, ast.Attribute):
+                        r = r.func.value
+                    if isinstance(r, ast.Name):
+                        conts.add(r.id)
+    if len(conts) < 2:
+        run.cannot('announce lists of UpdateCollection.messages not found (%s)' % sorted(conts))
+        return
+
+    def atoms_and_eval(e: ast.AST):
+        """boolean structure of e over atoms (text of the maximal non-boolean subexpressions)"""
+        atoms: set[str] = set()
+
+        def build(x: ast.AST):
+            if isinstance(x, ast.BoolOp):
+                parts = [build(v) for v in x.values]
+                if isinstance(x.op, ast.And):
+                    return lambda a: all(p(a) for p in parts)
+                return lambda a: any(p(a) for p in parts)
+            if isinstance(x, ast.UnaryOp) and isinstance(x.op, ast.Not):
+                inner = build(x.operand)
+                return lambda a: not inner(a)
+            if isinstance(x, ast.Call) and isinstance(x.func, ast.Name) and x.func.id in ('bool', 'len') and len(x.args) == 1:
+                return build(x.args[0])
+            if isinstance(x, ast.Constant):
+                return lambda a, v=bool(x.value): v
+            if isinstance(x, ast.Name) and x.id not in conts:
+                vs = ml.values(x.id)
+                if len(vs) == 1 and not isinstance(vs[0], ast.Name):
+                    return build(vs[0])
+            key = norm(x)
+            atoms.add(key)
+            return lambda a, key=key: a[key]
+
+        return build(e), atoms
+
+    def can_be_false_while_announcing(e: ast.AST) -> dict | None:
+        f, atoms = atoms_and_eval(e)
+        free = sorted(atoms)
+        for c in sorted(conts):
+            others = [a for a in free if a != c]
+            for vals in itertools.product([False, True], repeat=len(others)):
+                env = dict(zip(others, vals))
+                env[c] = True
+                if not f(env):
+                    return env
+        return None
+
+    calls = [c for c in model.calls_to(msgs.module, msgs.node, 'AttributeCollection.pack_attribute')]
+    n = 0
+    for c in calls:
+        arg = c.args[1] if len(c.args) > 1 else next((k.value for k in c.keywords if k.arg == 'with_default'), None)
+        if arg is None or isinstance(arg, ast.Constant):
+            if arg is not None:
+                n += 1
+                run.check(arg.value is True or all(any(isinstance(t, ast.Name) and t.id == k and not pol or norm(t) == 'not ' + k and pol for t, pol in flat_guards(msgs.node, c, pm)) for k in conts), msgs.qualname, 'pack_attribute(with_default=%r)' % arg.value, msgs.loc(c), 'attributes must be packed when something is announced')
+            continue
+        if not isinstance(arg, ast.Name):
+            w = can_be_false_while_announcing(arg)
+            n += 1
+            run.check(w is None, msgs.qualname, 'pack_attribute flag %s true whenever something is announced' % norm(arg)[:50], msgs.loc(c), 'false for %s' % w)
+            continue
+        for v, how, st in ml.defs.get(arg.id, []):
+            if v is None:
+                continue
+            n += 1
+            inst = 'flag %s = %s' % (arg.id, norm(v)[:60])
+            if isinstance(v, ast.Constant) and v.value is True:
+                run.ok(msgs.qualname + ': ' + inst, 'constant true')
+                continue
+            # the guards of the assignment, with locals expanded
+            facts: list[tuple[ast.AST, bool]] = []
+            for t, pol in flat_guards(msgs.node, st, pm):
+                if isinstance(t, ast.Name) and t.id not in conts:
+                    vs = ml.values(t.id)
+                    if len(vs) == 1:
+                        facts += conjuncts(vs[0], pol)
+                        continue
+                facts.append((t, pol))
+            empty = {k for k in conts if any((isinstance(t, ast.Name) and t.id == k and not pol) for t, pol in facts)}
+            if isinstance(v, ast.Constant) and v.value is False:
+                okc = empty == conts
+                why = 'set to False although %s may hold announces' % sorted(conts - empty)
+            else:
+                w = can_be_false_while_announcing(v)
+                okc = w is None or empty == conts
+                why = 'the expression is false for %s' % w
+            run.check(
+                okc,
+                msgs.qualname,
+                'the attributes flag (%s) is true whenever something is announced' % inst,
+                msgs.loc(st),
+                '%s: pack_attribute(negotiated, False) packs nothing, so routes announced in that UPDATE (MP_REACH_NLRI next to an '
+                'MP_UNREACH_NLRI of a unicast family) go out without ORIGIN, AS_PATH or any of the requested attributes' % why,
+            )
+    if n < 2:
+        run.cannot('only %d definitions of the pack_attribute flag found in messages()' % n)
